@@ -82,7 +82,7 @@ Section M.
     (* pass0 *)
     pose proof (trel_call (S n) _ _ _ _ (tr_lit H0rel) H0) as H1. rewrite call_N in H1.
     (* pass2 *)
-    destruct (proj1 (pass2_correct aden cden tden kval yden env fu) ks body0 (mkBlock KDelay) B Hsupp (Forall_nil _) HB (S n) (u, 0) x) as [m Hm].
+    destruct (proj1 (pass2_correct aden cden tden kval yden env fu) ks body0 (mkBlock KDelay) B Hsupp (Forall_nil _) eq_refl HB (S n) (u, 0) x) as [m Hm].
     { apply Nseq_empty. eapply N_mono; [|exact H1]. lia. }
     (* pass3 *)
     rewrite <- call_N in Hm.
